@@ -35,6 +35,8 @@ def hashFeed : Term → List HItem
   | .val (.str s) => [.disc 3, .str s]
   | .nil => []                          -- `().hash(state)` feeds nothing
   | .cons h t => hashFeed h ++ hashFeed t
+  -- an `Option` field (tag 4): the derived `Hash` of `Option` feeds the discriminant, then the content
+  | .comp 4 a => .disc (match a with | .nil => 0 | _ => 1) :: hashFeed a
   | .comp _ a => hashFeed a             -- derived `Hash` of the struct: its fields in order
 
 def isList : Term → Bool
